@@ -672,7 +672,7 @@ func c07Decl(w *World, cf *ctxFacts, r *Result) {
 				if !ok {
 					continue
 				}
-				if callee := c.Call.StaticCallee(); callee != nil && callee.Name() == "NewVariable" && len(c.Call.Args) >= 1 {
+				if callee := c.Call.StaticCallee(); callee != nil && isDefinitionCtor(callee, "Variable") && len(c.Call.Args) >= 1 {
 					decls = append(decls, c)
 				}
 			}
@@ -2406,7 +2406,7 @@ func identOrigin(w *World, cf *ctxFacts, fn *ssa.Function, v ssa.Value, depth in
 			}
 			return true, "list of looked-up definitions"
 		}
-		if callee != nil && callee.Name() == "NewVariable" {
+		if callee != nil && isDefinitionCtor(callee, "Variable") {
 			// a declaration of this very statement: the same value is handed to the context
 			for _, ref := range *x.Referrers() {
 				if c2, ok := ref.(*ssa.Call); ok {
